@@ -620,6 +620,11 @@ def _col_variants(others):
 
 
 def partial_cases(tier, seed):
+    # dim omitted (two equal halves) with a map whose input and output dimensions differ but multiply to a perfect square, so that the Choi
+    # matrix has the size of a map M_n -> M_n (added after seeded change C04-12, which inferred the split from the Choi matrix)
+    for o, i in ((8, 2), (1, 4), (2, 8)):
+        for form in ("choi", "flat"):
+            yield {"n": 2, "pos": 1, "rothers": [i], "cothers": [i], "shape": [o, i, o, i], "fam": "gen", "r": 2, "k": 0, "kind": "cp", "form": form}
     placements = []
     for n in (1, 2, 3):
         for pos in range(n):
